@@ -180,7 +180,7 @@ pub fn run(seed: u64, size: usize) -> RunOutcome {
 pub fn batches(tier: &str, seed: u64) -> Vec<Batch<'static>> {
     let quick = tier == "quick";
     let mut v: Vec<Batch<'static>> = vec![];
-    let (n_small, n_big, big) = if quick { (8000u64, 120u64, 200usize) } else { (60_000, 3000, 600) };
+    let (n_small, n_big, big) = if quick { (8000u64, 120u64, 200usize) } else { (100_000, 800, 600) };
     v.push(Batch { name: "populations of 20-60 colliding names with removals and renames".into(), runs: n_small, f: Box::new(move |i| { let s = crate::rng::run_seed(seed, 61, i); run(s, 20 + (s % 41) as usize) }) });
     v.push(Batch { name: format!("populations of {} colliding names", big), runs: n_big, f: Box::new(move |i| run(crate::rng::run_seed(seed, 62, i), big)) });
     v
